@@ -121,9 +121,74 @@ theorem PresPar.setFromConfigure : ∀ (l : List (Key × Option Val)) (d : Bool)
   | kv :: r, d => by
     unfold MesonModel.Options.setFromConfigure
     exact PresPar.bind' (PresPar.configureOne kv) (fun b => PresPar.setFromConfigure r (d || b))
+/-- children are re-pointed only at a replacement of their own class -/
+theorem PresPar.repointChildren (oid nid : Nat) : PresPar (repointChildren oid nid) := by
+  unfold MesonModel.Options.repointChildren
+  apply PresPar.modify
+  intro s hs
+  split
+  · exact hs
+  · rename_i n hn
+    let f : Obj → Obj := fun c => if c.parent == some oid then
+        (if n.kind.sameClass c.kind then { c with parent := some nid } else { c with parent := none, yielding := false })
+      else c
+    have fk : ∀ c, (f c).kind = c.kind := by
+      intro c
+      simp only [f]
+      split
+      · split <;> rfl
+      · rfl
+    show ParentOk { s with heap := s.heap.map f }
+    intro i o pid hi hpar
+    simp only [List.getElem?_map, Option.map_eq_some_iff] at hi
+    obtain ⟨c, hc, rfl⟩ := hi
+    rw [fk]
+    have hget : ∀ (j : Nat) (p : Obj), s.heap[j]? = some p → (s.heap.map f)[j]? = some (f p) := by
+      intro j p hj; simp [hj]
+    by_cases h1 : c.parent = some oid
+    · by_cases h2 : n.kind.sameClass c.kind = true
+      · have hp : (f c).parent = some nid := by simp [f, h1, h2]
+        rw [hp] at hpar; cases hpar
+        exact ⟨f n, hget _ _ hn, by rw [fk]; exact h2⟩
+      · have hp : (f c).parent = none := by simp [f, h1, h2]
+        rw [hp] at hpar; cases hpar
+    · have hp : f c = c := by simp [f, h1]
+      rw [hp] at hpar
+      obtain ⟨p, hp', hs'⟩ := hs i c pid hc hpar
+      exact ⟨f p, hget _ _ hp', by rw [fk]; exact hs'⟩
+
+/-- a replaced option object is linked like a new one: only to a same-class object of the heap -/
+theorem linkParent_ok (s : Store) (k : Key) (o : Obj) (ho : o.parent = none) (pid : Nat)
+    (h : linkParent s k o = some pid) : ∃ p : Obj, s.heap[pid]? = some p ∧ p.kind.sameClass o.kind = true := by
+  unfold linkParent at h
+  split at h
+  · split at h
+    · split at h
+      · rename_i p hh
+        split at h
+        · rename_i hsame
+          cases h
+          exact ⟨p, hh, hsame⟩
+        · rw [ho] at h; cases h
+      · rw [ho] at h; cases h
+    · rw [ho] at h; cases h
+  · rw [ho] at h; cases h
+
+theorem PresPar.replaceObj (key : Key) (nobj old : Obj) (oid : Nat) (b : Bool) (ho : nobj.parent = none) :
+    PresPar (replaceObj key nobj old oid b) := by
+  unfold MesonModel.Options.replaceObj
+  apply PresPar.bind_get
+  intro s2
+  apply At.alloc_bind
+  · intro pid hp
+    exact linkParent_ok s2 key nobj ho pid hp
+  · intro id
+    repeat (first | exact PresPar.repointChildren _ _ | pp_core)
+
 theorem PresPar.updateOne (sub : Str) (kv : Key × Obj) (ho : kv.2.parent = none) : PresPar (updateOne sub kv) := by
   unfold MesonModel.Options.updateOne
-  repeat (first | exact PresPar.setOption _ _ _ | exact PresPar.addProjectOption _ _ ho | exact PresPar.alloc ho | pp_core)
+  repeat (first | exact PresPar.setOption _ _ _ | exact PresPar.addProjectOption _ _ ho | exact PresPar.replaceObj _ _ _ _ _ ho
+                | pp_core)
 theorem PresPar.updateProjectOptions (sub : Str) (objs : List (Key × Obj)) (ho : ∀ kv ∈ objs, kv.2.parent = none) :
     PresPar (updateProjectOptions sub objs) := by
   unfold MesonModel.Options.updateProjectOptions
